@@ -145,6 +145,19 @@ func (c *specCtx) tr(e ast.Expr) (tv, error) {
 						return c.pkgObject(imp, x.Sel.Name)
 					}
 				}
+				// not imported by the function's package: a package of the
+				// repository's own module with that name, when there is one only
+				var cand *types.Package
+				n := 0
+				for _, p := range c.fr.enc.prog.AllPackages() {
+					if p.Pkg.Name() == id.Name && strings.HasPrefix(p.Pkg.Path(), "github.com/git-lfs/git-lfs/") {
+						cand = p.Pkg
+						n++
+					}
+				}
+				if n == 1 {
+					return c.pkgObject(cand, x.Sel.Name)
+				}
 			}
 		}
 		a, err := c.tr(x.X)
